@@ -7,6 +7,7 @@
    tree  ::= [ stmt* ]
    stmt  ::= c prim | i sp cond tree elses e | w sp cond tree e | f sp x hv tree e
            | k out(name|-) fname nargs arg* | r sp arg(-|L:x|V:x)
+   (conditions of i / w / ei:  fcond ::= F fname nargs arg* | ~ fcond | cond)
    elses ::= n | ei sp cond tree elses | el sp tree
    cond  ::= N name | V name | ! cond
    prim  ::= E tag k v1..vk | S x v | C x y | A h k e1..ek | P hv v | 0
@@ -21,33 +22,40 @@ let rec p_block ts = match ts with
   | "[" :: r -> p_stmts r
   | _ -> failwith "bad block"
 and p_stmts ts = match ts with
-  | "]" :: r -> (GNil, r)
-  | _ -> let (st, r) = p_stmt ts in let (b, r) = p_stmts r in (GCons (st, b), r)
+  | "]" :: r -> (QNil, r)
+  | _ -> let (st, r) = p_stmt ts in let (b, r) = p_stmts r in (QCons (st, b), r)
 and p_stmt ts = match ts with
-  | "c" :: r -> let (p, r) = p_prim r in (GCmd p, r)
+  | "c" :: r -> let (p, r) = p_prim r in (QCmd p, r)
   | "i" :: sp :: r ->
-      let (c, r) = p_cond r in let (b, r) = p_block r in let (e, r) = p_elses r in
-      (match r with en :: r -> (GIf (s sp, c, b, e, s en), r) | _ -> failwith "bad if")
+      let (c, r) = p_fcond r in let (b, r) = p_block r in let (e, r) = p_elses r in
+      (match r with en :: r -> (QIf (s sp, c, b, e, s en), r) | _ -> failwith "bad if")
   | "w" :: sp :: r ->
-      let (c, r) = p_cond r in let (b, r) = p_block r in
-      (match r with en :: r -> (GWhile (s sp, c, b, s en), r) | _ -> failwith "bad while")
+      let (c, r) = p_fcond r in let (b, r) = p_block r in
+      (match r with en :: r -> (QWhile (s sp, c, b, s en), r) | _ -> failwith "bad while")
   | "f" :: sp :: x :: hv :: r ->
       let (b, r) = p_block r in
-      (match r with en :: r -> (GFor (s sp, s x, s hv, b, s en), r) | _ -> failwith "bad for")
+      (match r with en :: r -> (QFor (s sp, s x, s hv, b, s en), r) | _ -> failwith "bad for")
   | "k" :: out :: fname :: n :: r ->
       let rec take k r acc = if k = 0 then (List.rev acc, r) else
         (match r with x :: r -> take (k - 1) r (p_arg x :: acc) | [] -> failwith "bad count") in
       let (args, r) = take (int_of_string n) r [] in
-      (GCall ((if out = "-" then None else Some (s out)), s fname, args), r)
-  | "r" :: sp :: a :: r -> (GReturn (s sp, (if a = "-" then None else Some (p_arg a))), r)
+      (QCall ((if out = "-" then None else Some (s out)), s fname, args), r)
+  | "r" :: sp :: a :: r -> (QReturn (s sp, (if a = "-" then None else Some (p_arg a))), r)
   | _ -> failwith "bad stmt"
 and p_elses ts = match ts with
-  | "n" :: r -> (HNil, r)
+  | "n" :: r -> (ZNil, r)
   | "ei" :: sp :: r ->
-      let (c, r) = p_cond r in let (b, r) = p_block r in let (e, r) = p_elses r in
-      (HElseIf (s sp, c, b, e), r)
-  | "el" :: sp :: r -> let (b, r) = p_block r in (HElse (s sp, b), r)
+      let (c, r) = p_fcond r in let (b, r) = p_block r in let (e, r) = p_elses r in
+      (ZElseIf (s sp, c, b, e), r)
+  | "el" :: sp :: r -> let (b, r) = p_block r in (ZElse (s sp, b), r)
   | _ -> failwith "bad elses"
+and p_fcond ts = match ts with
+  | "F" :: fname :: n :: r ->
+      let rec take k r acc = if k = 0 then (List.rev acc, r) else
+        (match r with x :: r -> take (k - 1) r (p_arg x :: acc) | [] -> failwith "bad count") in
+      let (args, r) = take (int_of_string n) r [] in (FCCall (s fname, args), r)
+  | "~" :: r -> let (c, r) = p_fcond r in (FCNot c, r)
+  | _ -> let (c, r) = p_cond ts in (FCBase c, r)
 and p_cond ts = match ts with
   | "N" :: n :: r -> (CNext (s n), r)
   | "V" :: n :: r -> (CVar (s n), r)
@@ -70,7 +78,7 @@ let rec p_defs k ts = if k = 0 then ([], ts) else
       let (b, r) = p_block r in
       (match r with
        | e :: r -> let (ds, r) = p_defs (k - 1) r in
-                   ({ fd_sp = s sp; fd_scoped = (sc = "1"); fd_name = s name; fd_body = b; fd_end = s e } :: ds, r)
+                   ({ cd_sp = s sp; cd_scoped = (sc = "1"); cd_name = s name; cd_body = b; cd_end = s e } :: ds, r)
        | [] -> failwith "bad def")
   | _ -> failwith "bad def"
 let p_prog ts = match ts with
@@ -78,7 +86,7 @@ let p_prog ts = match ts with
       let (ds, r) = p_defs (int_of_string n) r in
       let (b, r) = p_block r in
       if r <> [] then failwith "trailing tokens";
-      { p_defs = ds; p_main = b }
+      { cp_defs = ds; cp_main = b }
   | _ -> failwith "bad prog"
 
 let space = n_of_int 32
@@ -121,15 +129,29 @@ let () = iter_lines (fun line ->
       (try
         let p = p_prog (String.split_on_char ' ' ptext) in
         let w0 = init_world (list_of_field init) world0 in
-        let code = compile_prog p in
+        let code = compile_cprog p in
         let text = List.map line_of_instr code in
-        let spec = (match prog_run tree_fuel p w0 with
-          | FOk w -> "OK|" ^ show_world w | FRet (_, _) -> "RET" | FErr -> "ERR" | FFuel -> "FUEL") in
-        let model = (match frun_program flat_fuel code w0 with
+        let show_spec = function
+          | FOk w -> "OK|" ^ show_world w | FRet (_, _) -> "RET" | FErr -> "ERR" | FFuel -> "FUEL" in
+        let show_model = function
           | FDone ((w, _), _) -> "OK|" ^ show_world w
           | FStopped (l, r, _) -> Printf.sprintf "STOP %d %s" (int_of_nat l) (kind_of_cres r)
-          | FOutOfFuel -> "FUEL") in
-        Printf.printf "%s\t%s\t%s\t%s\t%s\n" (field_of_list text) (b2s (wf_prog p))
-          (b2s (known_f6 p) ^ (if ordered_prog p then "O" else "")) spec model
+          | FOutOfFuel -> "FUEL" in
+        let spec = show_spec (cprog_run tree_fuel p w0) in
+        let model = show_model (crun_program flat_fuel tree_fuel code w0) in
+        (* programs without condition-position calls are also run through the definitions the
+           simulation theorem speaks about (FlowFnTree / FlowFn); both paths must agree *)
+        let (wf, flags, link) = (match lower_prog p with
+          | Some p0 ->
+              let code0 = compile_prog p0 in
+              let spec0 = show_spec (prog_run tree_fuel p0 w0) in
+              let model0 = show_model (frun_program flat_fuel code0 w0) in
+              let ok = (List.map line_of_instr code0 = text) && spec0 = spec && model0 = model
+                       && (known_f6 p0 = cknown_f6 p) && (wf_prog p0 = wf_cprog p) in
+              (wf_prog p0, b2s (known_f6 p0) ^ (if ordered_prog p0 then "O" else ""), ok)
+          | None ->
+              (wf_cprog p, b2s (cknown_f6 p) ^ "C" ^ (if corner_prog p then "K" else ""), true)) in
+        if not link then print_endline "LINKERR" else
+        Printf.printf "%s\t%s\t%s\t%s\t%s\n" (field_of_list text) (b2s wf) flags spec model
       with Failure m -> print_endline ("BADCASE " ^ m))
   | _ -> print_endline "BADLINE")
